@@ -199,6 +199,37 @@ func runFr(t []string) string {
 	case "gdouble":
 		fr.VerifDoubleGeneric(&z, &a)
 		return showLimbs(&z)
+	// the portable functions with the receiver aliasing an operand
+	case "gmulA":
+		fr.VerifMulGeneric(&a, &a, &b)
+		return showLimbs(&a)
+	case "gmulB":
+		fr.VerifMulGeneric(&b, &a, &b)
+		return showLimbs(&b)
+	case "gmulAA":
+		fr.VerifMulGeneric(&a, &a, &a)
+		return showLimbs(&a)
+	case "gaddA":
+		fr.VerifAddGeneric(&a, &a, &b)
+		return showLimbs(&a)
+	case "gaddB":
+		fr.VerifAddGeneric(&b, &a, &b)
+		return showLimbs(&b)
+	case "gaddAA":
+		fr.VerifAddGeneric(&a, &a, &a)
+		return showLimbs(&a)
+	case "gsubA":
+		fr.VerifSubGeneric(&a, &a, &b)
+		return showLimbs(&a)
+	case "gsubB":
+		fr.VerifSubGeneric(&b, &a, &b)
+		return showLimbs(&b)
+	case "gnegA":
+		fr.VerifNegGeneric(&a, &a)
+		return showLimbs(&a)
+	case "gdoubleA":
+		fr.VerifDoubleGeneric(&a, &a)
+		return showLimbs(&a)
 	case "gfrommont":
 		fr.VerifFromMontGeneric(&a)
 		return showLimbs(&a)
